@@ -2,17 +2,18 @@
 (* clikit.ui.components.Table as an object with a history   (property C14: "rendering does not modify the table",
    and every render shows exactly the rows and the header the table has at that moment).
 
-   tbl = [ncols, hdr, rows]: number of columns (0: not fixed yet), header row (<<>>: none), body rows.
+   tbl = [ncols, hdr, rows, calls]: number of columns (-1: not fixed yet; an empty first row fixes it at 0), header row
+   (<<>>: none), body rows, and the set_column_alignment(col, a) calls made so far on the table's style object.
    The operations are given as functions  table -> [t: table afterwards, err: "" or the exception class]  so that
    the model checker (MC_TableObject: every operation sequence up to Depth) and the trace module
    (TableLayoutTrace: recorded sequences on a real Table) share them.  Rows are sequences of cell texts.      *)
 EXTENDS Integers, Sequences
 
-Empty == [ncols |-> 0, hdr |-> <<>>, rows |-> <<>>]
+Empty == [ncols |-> -1, hdr |-> <<>>, rows |-> <<>>, calls |-> <<>>]
 Res(t, e) == [t |-> t, err |-> e]
 \* the first row or header fixes the number of columns; later ones must have it
-Accepts(t, row) == IF t.ncols = 0 THEN TRUE ELSE Len(row) = t.ncols
-Fixed(t, row) == IF t.ncols = 0 THEN Len(row) ELSE t.ncols
+Accepts(t, row) == IF t.ncols = -1 THEN TRUE ELSE Len(row) = t.ncols
+Fixed(t, row) == IF t.ncols = -1 THEN Len(row) ELSE t.ncols
 
 FSetHeader(t, row) == IF Accepts(t, row) THEN Res([t EXCEPT !.ncols = Fixed(t, row), !.hdr = row], "") ELSE Res(t, "ValueError")
 FAddRow(t, row) == IF Accepts(t, row) THEN Res([t EXCEPT !.ncols = Fixed(t, row), !.rows = Append(@, row)], "")
@@ -22,18 +23,22 @@ RECURSIVE AddAll(_, _)
 AddAll(t, rws) == IF rws = <<>> THEN Res(t, "")
                   ELSE LET r == FAddRow(t, Head(rws)) IN IF r.err # "" THEN r ELSE AddAll(r.t, Tail(rws))
 FSetRows(t, rws) == AddAll([t EXCEPT !.rows = <<>>], rws)
+FAddRows(t, rws) == AddAll(t, rws)
+\* the style object of the table is customised between calls: style.set_column_alignment(col, a)
+FAlign(t, col, a) == Res([t EXCEPT !.calls = Append(@, <<col, a>>)], "")
 \* set_row(index, row): Python index (0-based, negative from the end); the length is compared with the fixed
 \* number of columns (a table without columns rejects every row)
 FSetRow(t, idx, row) ==
   LET pos == IF idx >= 0 THEN idx + 1 ELSE Len(t.rows) + idx + 1
-  IN IF t.ncols = 0 \/ Len(row) # t.ncols THEN Res(t, "ValueError")
+  IN IF t.ncols = -1 \/ Len(row) # t.ncols THEN Res(t, "ValueError")
      ELSE IF pos < 1 \/ pos > Len(t.rows) THEN Res(t, "IndexError")
      ELSE Res([t EXCEPT !.rows[pos] = row], "")
 
 \* every row and the header have the fixed number of cells
 Consistent(t) == /\ (t.hdr # <<>> => Len(t.hdr) = t.ncols)
+                 /\ (t.rows # <<>> => t.ncols >= 0)
                  /\ \A r \in 1..Len(t.rows) : Len(t.rows[r]) = t.ncols
 \* what a render has to show: header row first (nothing is drawn while the body is empty)
-Shows(t) == t.rows # <<>>
+Shows(t) == t.rows # <<>> /\ t.ncols >= 1
 ShownRows(t) == (IF t.hdr # <<>> THEN <<t.hdr>> ELSE <<>>) \o t.rows
 =============================================================================
